@@ -1259,6 +1259,52 @@ def mon_c03(case):
         prev = (cap, nodes)
     return None
 
+
+WEAK_CODES = {
+    1: "a list walk reached a freed node (dangling pointer)",
+    2: "a list walk does not terminate at the other sentinel / a sentinel is damaged",
+    3: "the forward and backward walks of a list disagree",
+    4: "a node is linked twice or a sentinel is linked as a node",
+    5: "an index entry points at a node that is not linked (or freed)",
+    6: "an index key is not the key stored in its own node",
+    7: "a node is indexed twice",
+}
+
+
+def mon_c18(case):
+    """panic injection runs (kind >= 100), judged on the implementation alone: after the injected panic and after every
+    later call nothing has been dropped twice, no list walk meets a freed node, every list is still a chain between its
+    sentinels, every index entry points at a linked node through the key stored in it; the final drop drops nothing
+    twice and leaves the poison of freed memory intact"""
+    if case["kind"] < 100:
+        return None
+    faulted = None
+    for step, (op, out, cb, acct, snap) in enumerate(case["lines"], 1):
+        if not op:
+            continue
+        inj = op[0] == 97
+        real = op[2:] if inj else op
+        if inj and out[:1] == [-1000] and len(out) > 1:
+            faulted = (step, op[1], real[:4], out[1])
+        where = (f"after the panic injected into call #{faulted[1]} into user code of operation {faulted[2]} (step {faulted[0]}, "
+                 f"{['BuildHasher', 'Hash', 'Eq', 'Clone', 'Drop of a key', 'Drop of a value', 'the eviction callback'][faulted[3]] if 0 <= faulted[3] < 7 else '?'}) "
+                 if faulted else "")
+        if real[:1] == [99]:
+            if len(out) >= 6:
+                dk, dv, dd, live, ok, poison = out[:6]
+                if dd:
+                    return step, where + f"dropping the cache dropped {dd} key/value object(s) a second time"
+                if poison:
+                    return step, where + "freed memory was written to (poison damaged)"
+            continue
+        if len(acct) >= 3 and acct[2]:
+            return step, where + f"call {real[:4]} dropped {acct[2]} key/value object(s) a second time"
+        for li in range(0, len(snap) - 2, 3):
+            code = snap[li]
+            if code:
+                return step, where + f"after call {real[:4]}: list #{li // 3}: {WEAK_CODES.get(code, code)}"
+    return None
+
 def mon_c04(case):
     """ownership ledger of the harness on the implementation alone: nothing dropped twice; after every call the
     tracked keys and values still alive are exactly those of the retained entries; purge retains nothing;
